@@ -60,6 +60,7 @@ def make_api_doc(c):
     psd = PSDImage.new(dm, (w, h), color=color, depth=depth, compression=pc.comp_enum(comp))
 
     def pix(seed, partial, left, top, lw=None, lh=None):
+        seed = (seed + c.get("seed", 0)) % 256
         im = layer_image(dm, lw or max(1, w - 1), lh or max(1, h - 1), seed, partial)
         return PixelLayer.frompil(im, psd, "px%d" % seed, top, left, Compression.RLE)
 
@@ -145,7 +146,8 @@ def make_fixture_doc(c):
     elif hist == "add-layer":
         dm = {1: "L", 3: "RGB", 4: "CMYK"}.get(int(psd.color_mode), "RGB")
         im = layer_image(dm, max(1, psd.width - 1), max(1, psd.height - 1), 21, False)
-        psd.append(PixelLayer.frompil(im, psd, "added", 0, 1, Compression.RLE))
+        # RLE layers from frompil are unreadable in PSB documents (F-C07-9): not this property's business
+        psd.append(PixelLayer.frompil(im, psd, "added", 0, 1, Compression.RLE if psd.version == 1 else Compression.ZIP))
     elif hist == "rename" and len(psd):
         psd[0].name = "renamed"
     elif hist == "hide" and len(psd):
@@ -223,6 +225,18 @@ def oracle(ck, c, keep=None):
     obs["section"] = s
     if keep is not None:
         keep["blob"] = blob
+    # what the library reads back is what the independent reader finds in the file
+    if s.ok:
+        try:
+            p2 = pc.reopen(blob)
+            lib = [bytes(b) for b in p2._record.image_data.get_data(p2._record.header)]
+            if lib != [bytes(b) for b in s.planes]:
+                k = next((i for i, (x, y) in enumerate(zip(lib, s.planes)) if x != bytes(y)), min(len(lib), len(s.planes)))
+                ck.fail("readback-differs-from-file", c, dict(planes=len(lib), first_differing_plane=k, sizes=[len(b) for b in lib]),
+                        dict(planes=len(s.planes), sizes=[len(b) for b in s.planes]), **extra)
+        except Exception as e:
+            ck.fail("readback-raises", c, repr(e), "merged image readable by psd-tools", exc=type(e).__name__, **extra)
+            return obs
     if not dirty:
         if s.raw != orig:
             ck.fail("clean-bytes-changed", c, dict(len=len(s.raw), head=list(s.raw[:12])), dict(len=len(orig or b""), head=list((orig or b"")[:12])), **extra)
@@ -349,7 +363,7 @@ def save_lit(f):
 # ----------------------------------------------------------------------------- generators
 def gen_cases(ck):
     thorough = ck.tier == "thorough"
-    sizes = [(4, 3), (1, 1), (128, 2), (5, 1)] + ([(129, 3), (2, 130), (7, 7)] if thorough else [])
+    sizes = [(4, 3), (1, 1), (128, 2), (5, 1), (129, 3), (2, 130)] + ([(127, 1), (7, 7), (1, 64), (256, 2)] if thorough else [])
     for dm in DOCMODES:
         for depth in (8, 16, 32):
             for comp in range(4):
@@ -357,10 +371,11 @@ def gen_cases(ck):
                     hs = STRUCTURAL if depth == 8 else ["append-group", "append-remove-group"]
                     cl = CLEAN if depth == 8 else ["nothing"]
                     if not thorough:
-                        hs = [h for h in hs if ck.rng.random() < (0.6 if size == (4, 3) else 0.3)] or [ck.rng.choice(hs)]
+                        hs = [h for h in hs if size == (4, 3) or ck.rng.random() < 0.5] or [ck.rng.choice(hs)]
                         cl = [ck.rng.choice(cl)] + (["nothing"] if size == (4, 3) else [])
                     for hist in hs + cl:
-                        yield dict(mode=dm, size=list(size), depth=depth, comp=comp, history=hist)
+                        for _rep in range(3 if thorough else 1):
+                            yield dict(mode=dm, size=list(size), depth=depth, comp=comp, history=hist, seed=ck.rng.randrange(256))
     fx = list(FIXTURES_Q)
     if thorough:
         import glob
@@ -373,7 +388,7 @@ def gen_cases(ck):
     for rel in fx:
         if not os.path.exists(fixture_path(rel)):
             continue
-        for hist in (FIX_STRUCT + FIX_CLEAN if (thorough or rel in FIXTURES_Q[:12]) else ["rotate", "add-group", "nothing", "rename"]):
+        for hist in (FIX_STRUCT + FIX_CLEAN if (thorough or rel in FIXTURES_Q) else ["rotate", "add-group", "nothing", "rename"]):
             yield dict(fixture=rel, history=hist)
 
 
@@ -385,7 +400,8 @@ def _cm_gray_rgb(fl):
 core.KNOWN_CLASSIFIERS["F-C17-1"] = lambda fl: (
     fl.get("dirty") and fl.get("depth") == 8 and _cm_gray_rgb(fl) and fl.get("channels") != NCOLOR[fl["mode"]] + 1
     and fl["kind"] in ("section-mismatch", "readback-raises", "merged-ne-composite")
-    and (fl["kind"] != "readback-raises" or fl.get("exc") == "AssertionError")
+    and (fl["kind"] != "readback-raises" or fl.get("exc") == "AssertionError"
+         or (fl.get("exc") == "ValueError" and fl.get("comp") == 1 and fl.get("channels") > NCOLOR[fl["mode"]] + 1))
     and (fl["kind"] != "merged-ne-composite" or fl.get("partial_alpha_only")))
 core.KNOWN_CLASSIFIERS["F-C17-2"] = lambda fl: (
     fl.get("dirty") and fl.get("mode") == 4 and fl["kind"] == "save-raises" and fl.get("exc") == "TypeError")
@@ -479,8 +495,12 @@ def replay(path):
     fl = json.load(open(path))
     c = fl["input"]
     print("case:", c)
-    fs = _failures_of(c)
-    for f in fs:
-        print("FAIL", f["kind"], {k: v for k, v in f.items() if k not in ("kind", "input")})
-    print("expected:", fl["expected"], "| recorded kind:", fl["kind"], "| still failing:", bool(fs))
-    return 1 if fs else 0
+    open_ids = {k for k, v in st().items() if v == "open"}
+    unlisted = []
+    for f in _failures_of(c):
+        cover = [k for k in open_ids if k in core.KNOWN_CLASSIFIERS and core.KNOWN_CLASSIFIERS[k](f)]
+        print("FAIL" if not cover else "known %s" % cover, f["kind"], {k: v for k, v in f.items() if k not in ("kind", "input")})
+        if not cover:
+            unlisted.append(f)
+    print("expected:", fl["expected"], "| recorded kind:", fl["kind"], "| failing outside the known findings:", bool(unlisted))
+    return 1 if unlisted else 0
